@@ -167,6 +167,48 @@ def match(ctx: Any) -> List[Ob]:
     return obs
 
 
+def request_roles(ctx: Any) -> Dict[str, str]:
+    """Locals of the lookup loop by role (so that renaming them changes nothing): the clock value, the
+    deadline, the next-query time, the delay, the first-request flag and the question type of this round."""
+    f = ctx.prog.func(INFO + '.async_request')
+    roles: Dict[str, str] = {}
+    for st in walk_local_ordered(f.node):
+        if isinstance(st, ast.Assign) and isinstance(st.targets[0], ast.Name):
+            v = st.value
+            if isinstance(v, ast.Call) and call_name(v) == 'current_time_millis':
+                roles.setdefault('now', st.targets[0].id)
+            if isinstance(v, ast.Call) and call_name(v) == '_get_initial_delay':
+                roles['delay'] = st.targets[0].id
+    from .common import local_defs
+
+    defs = local_defs(f)
+    timeout = f.params[2]
+    for n, vs in defs.items():
+        if n in f.params:
+            continue
+        real = [v for v in vs if v is not None]
+        if any(any(isinstance(x, ast.Name) and x.id == timeout for x in ast.walk(v)) for v in real):
+            roles['last'] = n
+        if len(vs) == 2 and all(isinstance(v, ast.Constant) and isinstance(v.value, bool) for v in real) and len(real) == 2 and [v.value for v in real] == [True, False]:
+            roles['first'] = n
+    for st in walk_local_ordered(f.node):
+        if isinstance(st, ast.AugAssign) and isinstance(st.target, ast.Name) and isinstance(st.value, ast.Call) and call_name(st.value) == '_get_random_delay':
+            roles['next'] = st.target.id
+    if 'next' not in roles and 'now' in roles:
+        for c in walk_local_ordered(f.node):
+            if isinstance(c, ast.Compare) and len(c.ops) == 1 and isinstance(c.left, ast.Name) and isinstance(c.comparators[0], ast.Name):
+                pair = {c.left.id, c.comparators[0].id}
+                if roles['now'] in pair and roles.get('last') not in pair and len(pair) == 2:
+                    roles['next'] = (pair - {roles['now']}).pop()
+    for c in walk_local_ordered(f.node):
+        if isinstance(c, ast.Call) and call_name(c) == '_generate_request_query' and len(c.args) >= 3 and isinstance(c.args[2], ast.Name):
+            roles['qtype'] = c.args[2].id
+    for k in ('now', 'delay', 'last', 'next', 'qtype', 'first'):
+        if k not in roles:
+            raise AnalysisError(f'anchor vanished: `{k}` of the lookup loop in {f.where()}')
+    return roles
+
+
 @rule('C18.BOUND', 'D', expect_min=7)
 def bound(ctx: Any) -> List[Ob]:
     """The lookup answers from the cache without transmitting when the cache
@@ -180,6 +222,14 @@ def bound(ctx: Any) -> List[Ob]:
     p_timeout = f.params[2]
     cfg = cfg_of(f.node)
     obs: List[Ob] = []
+
+    roles = request_roles(ctx)
+    inv = {v: k for k, v in roles.items()}
+
+    def rsym(x: ast.AST) -> Optional[str]:
+        if isinstance(x, ast.Name):
+            return inv.get(x.id, x.id)
+        return None
 
     def eff(node: Any, evl: Any) -> List[Any]:
         out = []
@@ -207,7 +257,7 @@ def bound(ctx: Any) -> List[Ob]:
     for t in cfg.nodes:
         if t.kind == 'test' and isinstance(t.ast, ast.Compare):
             try:
-                p, op = lf.comparison(prog, f.module, t.ast, lambda x: x.id if isinstance(x, ast.Name) else None)
+                p, op = lf.comparison(prog, f.module, t.ast, rsym)
                 if lf.same_cmp((p, op), lf.parse_cmp('last - now <= 0')) and all(s.kind == 'return' and norm(s.ast.value) == 'False' for s, lab in t.succ if lab is True):
                     tests.append(t)
             except lf.NotLinear:
@@ -215,11 +265,11 @@ def bound(ctx: Any) -> List[Ob]:
     sends = cfg.nodes_calling('async_send')
     waits = cfg.nodes_calling('async_wait')
     obs.append(ob(R, f, 'if last <= now: return False', 'the deadline is tested (and ends the lookup with failure) before every send and every wait of an iteration', bool(tests) and all(cfg.dominated_by_any(n, tests) for n in sends + waits) and all(t.in_loop for t in tests)))
-    last = [st for st in walk_local_ordered(f.node) if isinstance(st, ast.Assign) and norm(st.targets[0]) == 'last']
+    last = [st for st in walk_local_ordered(f.node) if isinstance(st, ast.Assign) and norm(st.targets[0]) == roles['last']]
     okl = False
     if len(last) == 1:
         try:
-            okl = lf.poly(prog, f.module, last[0].value, lambda x: x.id if isinstance(x, ast.Name) else None) == lf.parse_poly(f'now + {p_timeout}')
+            okl = lf.poly(prog, f.module, last[0].value, rsym) == lf.parse_poly(f'now + {p_timeout}')
         except lf.NotLinear:
             pass
     obs.append(ob(R, f, last[0] if last else 'last = now + timeout', 'the deadline is the start time plus the timeout', okl))
@@ -227,18 +277,24 @@ def bound(ctx: Any) -> List[Ob]:
     okw = False
     if len(wcall) == 1:
         a = wcall[0].args[0]
-        if isinstance(a, ast.BinOp) and isinstance(a.op, ast.Sub) and norm(a.right) == 'now' and isinstance(a.left, ast.Call) and norm(a.left.func) == 'min':
-            okw = sorted(norm(x) for x in a.left.args) == ['last', 'next_']
+        if isinstance(a, ast.BinOp) and isinstance(a.op, ast.Sub) and norm(a.right) == roles['now'] and isinstance(a.left, ast.Call) and norm(a.left.func) == 'min':
+            okw = sorted(norm(x) for x in a.left.args) == sorted([roles['last'], roles['next']])
     obs.append(ob(R, f, wcall[0] if wcall else 'async_wait', 'each wait lasts until the next query time or the deadline, whichever is first', okw))
     # now refreshed after every wait
-    upd = [n for n in cfg.nodes if n.kind == 'stmt' and isinstance(n.ast, ast.Assign) and norm(n.ast.targets[0]) == 'now' and n.in_loop]
+    upd = [n for n in cfg.nodes if n.kind == 'stmt' and isinstance(n.ast, ast.Assign) and norm(n.ast.targets[0]) == roles['now'] and n.in_loop and isinstance(n.ast.value, ast.Call) and call_name(n.ast.value) == 'current_time_millis']
     obs.append(ob(R, f, 'now = current_time_millis()', 'the clock is re-read after every wait', bool(upd) and all(any(cfg.dominates(w, u) for u in upd) for w in waits)))
     # a send happens only when a query is due and has questions left
     snd_ok = True
     for s in sends:
         doms = [t for t in cfg.nodes if t.kind == 'test' and cfg.dominates(t, s)]
-        texts = [norm(t.ast) for t in doms]
-        snd_ok = snd_ok and any('next_ <= now' in x or 'now >= next_' in x for x in texts) and any('.questions' in x for x in texts)
+        due = False
+        for t in doms:
+            try:
+                p, op = lf.comparison(prog, f.module, t.ast, rsym)
+                due = due or lf.same_cmp((p, op), lf.parse_cmp('next - now <= 0'))
+            except lf.NotLinear:
+                pass
+        snd_ok = snd_ok and due and any(isinstance(t.ast, ast.Attribute) and t.ast.attr == 'questions' for t in doms)
     obs.append(ob(R, f, 'if next_ <= now: ... if out.questions: zc.async_send(out, addr, port)', 'a query is sent only when one is due and it still has questions (those not already answered by the cache or suppressed)', snd_ok and bool(sends)))
     # success criterion
     ic = prog.cls(INFO).methods['_is_complete']
